@@ -343,6 +343,9 @@ PROPS["C10"]["functions"] += ["vectorizers/multi_token_cooccurence_vectorizer.py
 for _p in ("C06", "C10"):
     PROPS[_p]["functions"] += ["vectorizers/skip_gram_vectorizer.py::build_skip_grams"]
 
+# C01 for the n-gram co-occurrence kernel: an n-gram / token that was not fitted is skipped, never looked up blindly (`key` obligations)
+PROPS["C01"]["functions"] += [_NGK]
+
 # C04 at kernel level: the four event kernels carry "what each accumulator stores under a key == the values emitted under that key"
 PROPS["C04"]["functions"] += [_TK, _NGK, "vectorizers/timed_token_cooccurrence_vectorizer.py::numba_build_skip_grams",
                               "vectorizers/multi_token_cooccurence_vectorizer.py::numba_build_multi_skip_grams"]
@@ -355,3 +358,40 @@ for _pid, _P in PROPS.items():
     if any(any(w in repr({k: v for k, v in _ALLC.get(f, {}).items() if not callable(v)}) for w in ("lemma(", "psum_monotone", "psum_bound", "ksum_")) for f in _fs) and "lemma::ksum" not in _fs:
         _fs.append("lemma::ksum")
     _P["functions"] = _fs
+
+# ---------------------------------------------------------------- level notes / texts brought up to date (what is and is not under contract now)
+_NOTES = {
+    "C01": "Trusted: pyvc, z3, numpy/scipy. The estimator-level glue (shape= arguments, keep-masks) is decided by structural obligations (shape-pinned) and the bounded driver; "
+           "the n-gram co-occurrence kernel is under contract (dictionary lookups guarded), the other estimators' transform paths are bounded.",
+    "C03": "Trusted: pyvc, z3, numpy contracts (flipud/arange/mask assignment), floats as reals, pow uninterpreted. The event kernels are under contract for memory safety and for "
+           "conservation of what they emit (C04/C10), not for WHICH events they emit: the windowed, kernel-weighted definition itself is decided by the bounded reference.",
+    "C05": "The segment contracts are over the reals; the float32 rounding of a bound (seed S-C05-a) is visible to the bounded boundary enumeration only. The set/regex code around the "
+           "segments is not under contract.",
+    "C06": "ngrams_of (both behaviours), sum_coo_entries and build_skip_grams are under contract; the estimator glue (dictionary building, matrix assembly, `+`) is structural/bounded.",
+    "C07": "The optimiser is external (pynndescent.optimal_transport); only the read-out of the plan from the flow vector is proved, relative to the stated arc_id contract. "
+           "Feasibility and optimality are bounded (HiGHS reference).",
+    "C11": "em_update_matrix is under contract (memory safety, support, frame); the EM iteration drivers, the normalisation and the epsilon thresholding are bounded.",
+    "C12": "Row-independence of the estimators is bounded; deductive: the row partitions (loops AND their block/chunk counts), LZ / sliding-window / row-denoise kernels' frames.",
+    "C13": "Side-effect freedom of the estimators is structural (no-mutator, copy=True, scratch-file removal calls) + bounded snapshots; frames of the helpers are proved "
+           "(a frame obligation is generated for every parameter of every function under contract).",
+    "C14": "Deductive parts: kernels zero at the mask, radius tables 0 at a nullified mask, window positions, the re-indexing segment. The end-to-end matrix is bounded.",
+    "C16": "The LZ parse carries ghost accounting of phrase counts and the cap invariant; counts_to_csr_data keeps the column dictionary numbered 0..size-1 and every emitted "
+           "column inside it. The hashed variant and the estimator glue are bounded.",
+    "C17": "The three column_kl kernels are under contract for memory safety only; KL values (Gibbs' inequality, floats) are bounded: no SMT contract decides them.",
+    "C20": "pandas interval construction is library code; expand_boundaries / add_outier_bins / find_bin_boundaries are under contract over (left, right) records. "
+           "Row totals of the histogram and the KDE clause are bounded.",
+}
+for _k, _v in _NOTES.items():
+    PROPS[_k]["level_note"] = _v
+PROPS["C06"]["level_text"] = PROPS["C06"]["level_text"].replace(
+    "every slice in range for both behaviours;",
+    "ngrams_of('subgrams') returns exactly sum_i min(n, L-i) runs, each a contiguous run of 1..n elements (so a document shorter than n still yields its shorter runs), "
+    "every slice in range for both behaviours; build_skip_grams emits in-range (head, tail, weight) records;")
+PROPS["C12"]["level_text"] = ("Deductive (unbounded): every block / chunk loop of linear_optimal_transport.py is a partition of [0, n_rows) AND the number of blocks / chunks it runs "
+    "over is computed (16 one-statement segments) so that it reaches the last row with at most one trailing empty block; " + PROPS["C12"]["level_text"][len("Deductive (unbounded): "):])
+PROPS["C08"]["level_text"] = PROPS["C08"]["level_text"].replace("Verified on mechanically extracted", "The block / chunk counts feeding the loops are verified too (16 one-statement segments). Verified on mechanically extracted")
+PROPS["C16"]["level_text"] = PROPS["C16"]["level_text"].replace("never re-numbers an existing column,", "never re-numbers an existing column, keeps the column dictionary numbered 0..size-1 with every emitted index inside it,")
+PROPS["C10"]["level_text"] = PROPS["C10"]["level_text"].replace("Trusted:", "Trusted:") + (" The four event kernels (token, n-gram, timed, multiset) are under contract as well: every subscript, "
+    "every accumulator precondition at the append sites (two free slots, well-formedness, key >= 0) and the final sort+merge loop.")
+for _k in ("C06", "C08", "C10", "C12", "C16"):
+    PROPS[_k]["explanation"] = PROPS[_k]["level_text"]
